@@ -21,6 +21,8 @@ from typing import Any, Union
 import numpy as np
 from hypothesis import given, strategies as st
 
+import itertools
+
 import jaxtyping
 from jaxtyping import AbstractArray, Shaped, jaxtyped
 from vf import obs, usercats
@@ -364,7 +366,8 @@ def array_type_desc(draw, depth=0):
         return ["union", [a], [b]]
     if k == "nested":
         toks = draw(gd.legal_spec(max_axes=2, names=["a", "b"], vnames=["v"], multi_prob=0.3)) if draw(st.integers(0, 3)) else []  # (an empty level, too)
-        return ["nested", draw(st.sampled_from(CATS + USER)), dl.spec_spelling(toks), draw(array_type_desc(depth=depth + 1))]
+        # (categories declared with compiled regexes are drawn more often: their matching takes another path than plain names)
+        return ["nested", draw(st.sampled_from(CATS + USER + ["FloatRe", "Mixed"] * 4)), dl.spec_spelling(toks), draw(array_type_desc(depth=depth + 1))]
     return [k]
 
 
@@ -422,6 +425,15 @@ def run(ctx):
         check_case(ctx, desc, routes, cross if want_cross else None)
 
     ctx.hyp(cases, max_examples=ctx.n(220, 1200))
+    # a small fixed family, independent of the seed: nested annotations whose effective dtypes come from a category declared with compiled
+    # regexes (their matching takes another path than plain names), through every route
+    if ctx.shard == 0:
+        try:
+            for outer, inner in itertools.product(["Shaped", "Num", "FloatRe", "Mixed"], ["FloatRe", "Mixed", "UInt8or16", "Encoder.Dt"]):
+                for spec_o, spec_i in (("b", "c"), ("", "*v")):
+                    check_case(ctx, {"cat": outer, "at": ["nested", inner, spec_i, ["np"]], "spec": spec_o}, ROUTES)
+        except Violation as v:
+            ctx.record(v)
     # annotations that print alike but mean different things: a nested annotation and the flat one with the same
     # category, array type and concatenated spec; loaded one after the other in both orders
     @given(nested_focus(), st.sampled_from(["pickle2", "pickle5", "cloudpickle"]), st.booleans())
